@@ -57,6 +57,21 @@ def _safe_component(n, c1, c2, c3, os_i, no_control, ascii_only, case_i, maxlen)
     return _component_ok(out, o['os_type'] == 'windows', no_control)
 
 
+def _cache_sequence(c1, c2, os_a, nc_a, asc_a, os_b, nc_b, asc_b):
+    """History independence: a name produced after an earlier call with OTHER options equals the name a fresh process produces
+    (safe_filename keeps a module-level encoder cache)."""
+    name = pick(_CH, c1) + pick(_CH, c2)
+    oa = dict(os_type=pick(['unix', 'windows'], os_a), no_control=nc_a, ascii_only=asc_a)
+    ob = dict(os_type=pick(['unix', 'windows'], os_b), no_control=nc_b, ascii_only=asc_b)
+    P._encoder_cache.clear()
+    fresh = safe_filename(name, **ob)
+    P._encoder_cache.clear()
+    safe_filename(name, **oa)
+    after = safe_filename(name, **ob)
+    hit('named')
+    return after == fresh and _component_ok(after, ob['os_type'] == 'windows', nc_b)
+
+
 def _safe_component_free(name, os_i, no_control, ascii_only):
     P._encoder_cache.clear()
     if name == '':
@@ -71,7 +86,10 @@ _SEGS = ['a', '%2F', '%2E%2E', '%2e', '%00', '%5C', '..%2F', 'x' * 300, '.', '..
 _QUERIES = ['', '?q=1', '?x=/../../etc/passwd', '?..', '?a=%2F', '?.']
 
 
-def _contained(si, hi, s1, s2, s3, nseg, trailing, qi, use_dir, cut, protocol, hostname, os_i, no_control, ascii_only, case_i, maxlen):
+_ROOTS = ['/dl', 'dl', 'dl/', '.', './', '', '/', 'a/b']
+
+
+def _contained(si, hi, s1, s2, s3, nseg, trailing, qi, use_dir, cut, protocol, hostname, os_i, no_control, ascii_only, case_i, maxlen, root_i=0):
     clear_url_memo()
     P._encoder_cache.clear()
     segs = [pick(_SEGS, s) for s in (s1, s2, s3)[:nseg]]
@@ -82,17 +100,30 @@ def _contained(si, hi, s1, s2, s3, nseg, trailing, qi, use_dir, cut, protocol, h
         hit('url-rejected')
         return True
     o = _opts(os_i, no_control, ascii_only, case_i, maxlen)
+    root = pick(_ROOTS, root_i)
     with nosym():
-        namer = PathNamer('/dl', use_dir=use_dir, cut=cut, protocol=protocol, hostname=hostname, os_type=o['os_type'],
+        namer = PathNamer(root, use_dir=use_dir, cut=cut, protocol=protocol, hostname=hostname, os_type=o['os_type'],
                           no_control=no_control, ascii_only=ascii_only, case=o['case'], max_filename_length=o['max_length'])
     path = namer.get_filename(info)
     hit('named')
+    if root_i != 0:
+        # another spelling of the directory prefix (relative, trailing slash, current directory, empty = current directory, file
+        # system root): the file must be <prefix>/<the same relative path as under /dl>, resolved against the working directory
+        with nosym():
+            namer0 = PathNamer('/dl', use_dir=use_dir, cut=cut, protocol=protocol, hostname=hostname, os_type=o['os_type'],
+                               no_control=no_control, ascii_only=ascii_only, case=o['case'], max_filename_length=o['max_length'])
+        path0 = namer0.get_filename(info)
+        if not path0.startswith('/dl/'):
+            return False
+        if os.path.normpath(os.path.join('/cwd', path)) != os.path.normpath(os.path.join('/cwd', root, path0[len('/dl/'):])):
+            return False
+        path = path0
     if not path.startswith('/dl/'):
         return False
     rel = path[len('/dl/'):]
-    comps = rel.split('/')
     if os.path.normpath(path) != path:
         return False                                   # dot segments / doubled separators: the path is not what it seems
+    comps = rel.split('/')
     for c in comps:
         if not _component_ok(c, o['os_type'] == 'windows', no_control):
             return False
@@ -157,28 +188,37 @@ HARNESSES = [
       doc='safe_filename of every 1-2 (thorough 3) character name over a 24-class character pool (incl. a trailing LF / CR) under every option combination is a '
           'single non-empty component, not "." / "..", without separator (windows: none of the reserved characters), without C0 controls '
           'when no_control'),
+    H('cache_sequence', '_cache_sequence', 'c1: int, c2: int, os_a: int, nc_a: bool, asc_a: bool, os_b: int, nc_b: bool, asc_b: bool',
+      pre=['0 <= c1 < %d and 0 <= c2 < %d and 0 <= os_a <= 1 and 0 <= os_b <= 1' % (len(_CH), len(_CH))],
+      parts=[{'tag': 'a%d%d' % (o, n), 'fix': {'os_a': str(o), 'nc_a': str(bool(n)), 'c2': '0'}} for o in (0, 1) for n in (0, 1)],
+      timeout={'quick': 250, 'thorough': 600}, samples=[(7, 0, 0, False, True, 0, True, True), (3, 0, 1, True, False, 0, True, True)], need=['named'],
+      funcs=['wpull/path.py:safe_filename', 'wpull/path.py:PercentEncoder.__missing__'],
+      doc='safe_filename after an earlier call with different OS / control / ASCII options (module-level encoder cache) gives the same, '
+          'safe, name as a fresh process: the configuration in force - not the history - decides'),
     H('safe_component_free', '_safe_component_free', 'name: str, os_i: int, no_control: bool, ascii_only: bool',
       pre={'quick': ['len(name) <= 2 and 0 <= os_i <= 1'], 'thorough': ['len(name) <= 3 and 0 <= os_i <= 1']},
       parts=[{'tag': ('unix', 'win')[o], 'fix': {'os_i': str(o)}} for o in (0, 1)], timeout={'quick': 75, 'thorough': 900}, kind='hunt',
       samples=[('a/', 0, True, True)], funcs=['wpull/path.py:safe_filename'],
       doc='the same with a free symbolic name (every code point)'),
     H('contained', '_contained',
-      'si: int, hi: int, s1: int, s2: int, s3: int, nseg: int, trailing: bool, qi: int, use_dir: bool, cut: int, protocol: bool, hostname: bool, ' + _OPT_SIG,
+      'si: int, hi: int, s1: int, s2: int, s3: int, nseg: int, trailing: bool, qi: int, use_dir: bool, cut: int, protocol: bool, hostname: bool, ' + _OPT_SIG + ', root_i: int',
       pre=['0 <= si <= 2 and 0 <= hi <= 3 and 0 <= s1 < %d and 0 <= s2 < %d and 0 <= s3 < %d and 0 <= nseg <= 3 and 0 <= qi < %d and 0 <= cut <= 3 and ' % (
-          len(_SEGS), len(_SEGS), len(_SEGS), len(_QUERIES)) + _OPT_PRE],
+          len(_SEGS), len(_SEGS), len(_SEGS), len(_QUERIES)) + _OPT_PRE + ' and 0 <= root_i < %d' % len(_ROOTS)],
       parts={'quick': [
-          {'tag': 'ftp_dirs_%s%s' % (('unix', 'win')[o], '_slash' if t else ''), 'fix': dict(si='1', hi='0', nseg='2', s3='0', qi='0', use_dir='True', cut='0', protocol='False', hostname='True',
+          {'tag': 'ftp_dirs_%s%s' % (('unix', 'win')[o], '_slash' if t else ''), 'fix': dict(root_i='0', si='1', hi='0', nseg='2', s3='0', qi='0', use_dir='True', cut='0', protocol='False', hostname='True',
                                                                  os_i=str(o), no_control='True', ascii_only='True', case_i='0', maxlen='0', trailing=str(t))} for o in (0, 1) for t in (False, True)] + [
-          {'tag': 'http_query', 'fix': dict(si='0', hi='1', nseg='1', s2='0', s3='0', use_dir='True', cut='0', protocol='True', hostname='True',
+          {'tag': 'roots', 'fix': dict(si='1', hi='0', nseg='1', s2='0', s3='0', trailing='False', qi='0', cut='0', protocol='False', os_i='0', no_control='True', ascii_only='True', case_i='0', maxlen='0'),
+           'pre': ['1 <= root_i < %d' % len(_ROOTS)]},
+          {'tag': 'http_query', 'fix': dict(root_i='0', si='0', hi='1', nseg='1', s2='0', s3='0', use_dir='True', cut='0', protocol='True', hostname='True',
                                             no_control='True', ascii_only='False', case_i='1', maxlen='0')},
-          {'tag': 'ftp_flat_opts_unix', 'fix': dict(si='1', hi='0', nseg='1', s2='0', s3='0', trailing='False', qi='0', use_dir='False', cut='0', protocol='False', hostname='False', os_i='0')},
-          {'tag': 'ftp_flat_opts_win', 'fix': dict(si='1', hi='0', nseg='1', s2='0', s3='0', trailing='False', qi='0', use_dir='False', cut='0', protocol='False', hostname='False', os_i='1')},
-          {'tag': 'cut_hosts_lo', 'fix': dict(si='1', nseg='3', s1='1', s2='2', trailing='False', qi='0', use_dir='True', os_i='0', no_control='False', ascii_only='True', case_i='0', maxlen='0'), 'pre': ['cut <= 1']},
-          {'tag': 'cut_hosts_hi', 'fix': dict(si='1', nseg='3', s1='1', s2='2', trailing='False', qi='0', use_dir='True', os_i='0', no_control='False', ascii_only='True', case_i='0', maxlen='0'), 'pre': ['cut >= 2']}],
-             'thorough': [{'tag': 's%d_n%d_o%d_d%d' % (s, n, o, d), 'fix': dict(si=str(s), nseg=str(n), os_i=str(o), use_dir=str(bool(d)), hi='1', case_i='0', qi='2')}
+          {'tag': 'ftp_flat_opts_unix', 'fix': dict(root_i='0', si='1', hi='0', nseg='1', s2='0', s3='0', trailing='False', qi='0', use_dir='False', cut='0', protocol='False', hostname='False', os_i='0')},
+          {'tag': 'ftp_flat_opts_win', 'fix': dict(root_i='0', si='1', hi='0', nseg='1', s2='0', s3='0', trailing='False', qi='0', use_dir='False', cut='0', protocol='False', hostname='False', os_i='1')},
+          {'tag': 'cut_hosts_lo', 'fix': dict(root_i='0', si='1', nseg='3', s1='1', s2='2', trailing='False', qi='0', use_dir='True', os_i='0', no_control='False', ascii_only='True', case_i='0', maxlen='0'), 'pre': ['cut <= 1']},
+          {'tag': 'cut_hosts_hi', 'fix': dict(root_i='0', si='1', nseg='3', s1='1', s2='2', trailing='False', qi='0', use_dir='True', os_i='0', no_control='False', ascii_only='True', case_i='0', maxlen='0'), 'pre': ['cut >= 2']}],
+             'thorough': [{'tag': 's%d_n%d_o%d_d%d' % (s, n, o, d), 'fix': dict(root_i='0', si=str(s), nseg=str(n), os_i=str(o), use_dir=str(bool(d)), hi='1', case_i='0', qi='2')}
                           for s in (0, 1) for n in (1, 2, 3) for o in (0, 1) for d in (0, 1)]},
       timeout={'quick': 280, 'thorough': 2400},
-      samples=[(1, 0, 2, 1, 0, 2, False, 0, True, 0, False, True, 0, True, True, 0, 0), (0, 1, 0, 0, 0, 1, False, 2, True, 0, True, True, 1, True, False, 1, 0)],
+      samples=[(1, 0, 2, 1, 0, 2, False, 0, True, 0, False, True, 0, True, True, 0, 0, 0), (0, 1, 0, 0, 0, 1, False, 2, True, 0, True, True, 1, True, False, 1, 0, 0), (1, 0, 0, 0, 0, 1, False, 0, True, 0, False, True, 0, True, True, 0, 0, 5)],
       need=['named'],
       funcs=['wpull/path.py:PathNamer.get_filename', 'wpull/path.py:url_to_filename', 'wpull/path.py:url_to_dir_parts', 'wpull/path.py:safe_filename'],
       doc='PathNamer.get_filename for URLs built from pools (http/ftp, ports, IPv6, encoded slashes / dots / NUL / backslashes / very long '
